@@ -85,6 +85,7 @@ type simWorld struct {
 	cells     map[string]bool
 
 	onPeerDown func(*simPeer, string)
+	fam        any
 	stopped    bool
 }
 
